@@ -2477,8 +2477,7 @@ class CencSampleAuxiliaryData(ObjectWithFields):
         self.position = dest.tell()
         d = FieldWriter(self, dest)
         d.write(None, 'initialization_vector')
-        if ((parent.flags & self.UseSubsampleEncryption) == self.UseSubsampleEncryption and
-                self.subsamples):
+        if (parent.flags & self.UseSubsampleEncryption) == self.UseSubsampleEncryption:
             d.write('H', 'subsample_count', value=len(self.subsamples))
             for samp in self.subsamples:
                 samp.encode(dest)
